@@ -5,6 +5,8 @@
 # any new violation is a false alarm of the machinery.  Runs ${JOBS:-6} at a time.
 export GOFLAGS=-mod=mod GOPROXY=off GOSUMDB=off GOTOOLCHAIN=local GOWORK=off
 /verif/build.sh || exit 2
+# a private copy of the analyser: rebuilding /verif/bin/ugolint while this runs does not disturb it
+export UGOLINT_BIN=$(mktemp /tmp/ugolint-var-XXXXXX); cp /verif/bin/ugolint $UGOLINT_BIN; chmod +x $UGOLINT_BIN; trap 'rm -f $UGOLINT_BIN' EXIT
 props=$(python3 -c "import json;print(' '.join(c['property_id'] for c in json.load(open('/verif/MANIFEST.json'))['checks']))")
 one() {
   v=$1; name=$(basename $v .diff); wt=/tmp/wt-var-$name; ev=/tmp/ev-var-$name
@@ -15,7 +17,7 @@ one() {
   if [ -n "$SUITE" ] && ! ( cd $wt && go test -vet=off -count=1 ./... ) >/dev/null 2>&1; then echo "$name: SUITE FAILS (not behaviour preserving?)"; git -C /repo worktree remove --force $wt; return; fi
   bad=""; msgs=""
   for p in $PROPS; do
-    out=$(UGO_REPO=$wt UGOLINT_EVDIR=$ev /verif/bin/ugolint $p quick 2>&1); rc=$?
+    out=$(UGO_REPO=$wt UGOLINT_EVDIR=$ev $UGOLINT_BIN $p quick 2>&1); rc=$?
     if [ $rc -ne 0 ]; then bad="$bad $p"; msgs="$msgs$(echo "$out" | grep -E "\] (violation|undecided):" | cut -c1-300 | head -4)
 "; fi
   done
